@@ -284,3 +284,16 @@ def rebuilds_from_members(fn, buf="self._data", lists=("self.avps", "self._avps"
                        and ast.unparse(x.value) == f"{v}.dump()" for x in s.body):
                     return True
     return False
+
+
+def guard_facts(conds):
+    """Atoms forced by a list of (test, truth) guards: ({atom text: bool}, [tests that force nothing, as (text, truth)])"""
+    from .paths import implied_atoms
+    facts, residual = {}, []
+    for t, v in conds:
+        f = implied_atoms(t, v)
+        if f:
+            facts.update(f)
+        else:
+            residual.append((ast.unparse(t), v))
+    return facts, residual
